@@ -1,4 +1,5 @@
 SPECIFICATION FairSpec
+CONSTANT Bar = TRUE
 CONSTANT Pop = "same"
 INVARIANT TypeOK
 INVARIANT NoInterference
